@@ -191,6 +191,13 @@ func init() {
 		s.blockUntil(func() bool { return !self.quiesceWaiter })
 		return nil
 	}
+	externals[vp+"Atomic"] = func(fr *frame, args []value) value {
+		s := fr.i.S
+		s.noYield++
+		defer func() { s.noYield-- }()
+		call(fr.i, fr, token.NoPos, args[0], nil)
+		return nil
+	}
 	externals[vp+"SetUnwind"] = func(fr *frame, args []value) value {
 		fr.i.P.unwind = args[0].(int)
 		return nil
